@@ -272,5 +272,25 @@ def run(ctx):
         ctx.ob('C12.R3-encapsulation', s['function'], s['instance'], s['ok'], found=s['found'], expected=s['expected'],
                why='placement and stacks may only change through their owner methods', nontrivial='floor' not in s['instance'])
     r4_rights_monotone(ctx)
+    # R5: a right still held implies king and rook at home; an ep target sits behind a pawn that just advanced two squares:
+    #     these are consequences of the per-kind effect tables of apply (same rule instances as C03.R1-R3)
+    from . import c03
+    sub = type(ctx)(ctx.prop, ctx.tier, ctx.facts, ctx.facts_info, ctx.seed)
+    R = c03.rights_consts(sub)
+    if R is not None:
+        c03.table_moved(sub, R)
+        c03.table_taken(sub, R)
+        c03.table_ep_target(sub)
+        c03.r1_standard(sub)
+        c03.r2_castle(sub, R)
+        c03.r3_en_passant(sub)
+    for s in sub.samples:
+        inst = s['instance']
+        keep = ('rights' in inst or 'row(' in inst or 'ep target' in inst or 'floor' in inst or 'single bits' in inst or 'relocated' in inst)
+        if keep:
+            ctx.ob('C12.R5-rights-and-ep-tables', s['function'], inst, s['ok'], found=s['found'], expected=s['expected'],
+                   why='a castling right still held must imply king and rook on their home squares, and a non-empty en-passant target must lie '
+                       'behind a pawn that has just advanced two squares',
+                   nontrivial='floor' not in inst)
     r6_index_agreement(ctx)
     r7_summary(ctx)
